@@ -4,7 +4,7 @@ import io, contextlib
 import vparse
 from common import coq_eval, zlit, quiet, quiet_import
 
-PRELUDE = ('From V Require Import Base.PyInt Model.VSyntax Model.VSem.\n'
+PRELUDE = ('From V Require Import Base.PyInt Model.VSyntax Model.VSem Model.VDiv0.\n'
            'Open Scope string_scope.\n')
 
 
@@ -49,7 +49,7 @@ def run_impl(hw, top, steps):
 def vsim_term(name, steps, top, top_module):
     from vparse import cq_str
     outs = '[' + '; '.join(cq_str(vname(p.name)) for p in top.outPorts) + ']'
-    return ('match elaborate %s 200 %s with inl e => inl e | inr f => inr (vsim f %s %s %s) end'
+    return ('match elaborate %s 200 %s with inl e => inl e | inr f => if flat_div0 f then inl (ErrUnsupported "division or modulo by a constant zero: x in Verilog") else inr (vsim f %s %s %s) end'
             % (name, cq_str(top_module), cq_str(clock_name(top)), coq_steps([([(vname(a), v) for a, v in ins], n) for ins, n in steps]), outs))
 
 
